@@ -5,7 +5,7 @@ import itertools
 import math
 
 from mcx import sched
-from mcx.common import (PRESENTATIONS, PRUNED_MEASURES, cell, isna, join_fn,
+from mcx.common import (PRESENTATIONS, PRUNED_MEASURES, cell, isna, join_fn, lib,
                         make_tokenizer, mkframe, sim_counts, classify, reported)
 from mcx.refmodel import PairJudge, masks_for
 
@@ -51,9 +51,9 @@ def call_join(meas, L, R, tok, t, op, ae, am=False, lo=None, ro=None, score=True
               n_jobs=1, lp='l_', rp='r_'):
     fn = join_fn(meas)
     if meas == 'OVERLAP':
-        return fn(L, R, 'id', 'id', 's', 's', tok, t, op, am, lo, ro, lp, rp, score,
+        return lib(fn, L, R, "id", "id", "s", "s", tok, t, op, am, lo, ro, lp, rp, score,
                   n_jobs, False)
-    return fn(L, R, 'id', 'id', 's', 's', tok, t, op, ae, am, lo, ro, lp, rp, score,
+    return lib(fn, L, R, "id", "id", "s", "s", tok, t, op, ae, am, lo, ro, lp, rp, score,
               n_jobs, False)
 
 
